@@ -714,6 +714,45 @@ class Item:
         self._log('R16', 'reverse for-in-iter_mut loop #%d in %s -> counted while over %s (elements written as places %s[%s].0/.1)' % (ordinal, fn_name, v, v, k))
         return self
 
+    def r23_drop_elab(self, fn_name, var, dropfn):
+        """Drop elaboration for one guard variable (Verus does not model Drop): between `let mut VAR = ..` and the explicit
+        `drop(VAR);` every statement of the form `EXPR?;` becomes `match EXPR { Ok(v) => v, Err(e) => { DROPFN(VAR); return Err(e); } };`
+        (what the compiler does on that early exit), and `drop(VAR);` becomes `DROPFN(VAR);`.  DROPFN is the body of the Drop impl."""
+        self._no_splice_yet()
+        b, o, e = fn_span(self.text, fn_name)
+        body = self.text[o:e]
+        m1 = re.search(r'let mut %s\b' % re.escape(var), body)
+        m2 = re.search(r'\bdrop\(%s\);' % re.escape(var), body)
+        if not m1 or not m2:
+            raise ExtractError('%s: R23 no `let mut %s` .. `drop(%s);` region in %s' % (self.name, var, var, fn_name))
+        region = body[m1.end():m2.start()]
+        out, pos, n = '', 0, 0
+        for q in re.finditer(r'\?\s*;', region):
+            # statement start: walk back to the previous `;`, `{` or `}` at nesting depth 0
+            j, depth = q.start() - 1, 0
+            while j >= 0:
+                ch = region[j]
+                if ch in ')]':
+                    depth += 1
+                elif ch in '([':
+                    depth -= 1
+                elif ch in ';{}' and depth == 0:
+                    break
+                j -= 1
+            st = j + 1
+            if st < pos:
+                continue
+            stmt = region[st:q.start()].strip()
+            lead = re.match(r'\s*', region[st:]).group(0)
+            out += region[pos:st] + lead + 'match %s {\n    Ok(__v) => __v,\n    Err(__e) => {\n        %s(%s);\n        return Err(__e);\n    }\n};' % (stmt, dropfn, var)
+            pos = q.end()
+            n += 1
+        out += region[pos:]
+        body2 = body[:m1.end()] + out + '%s(%s);' % (dropfn, var) + body[m2.end():]
+        self.text = self.text[:o] + body2 + self.text[e:]
+        self._log('R23', 'drop elaboration of `%s` in %s: %d early exit(s) and the explicit drop call %s' % (var, fn_name, n, dropfn))
+        return self
+
     def r17_cow(self):
         """`Cow<'_, str>` erased to its owned form: the type becomes String, Cow::Owned(e) -> e, Cow::Borrowed(e) / e.into() ->
         e.vx_owned() (a stub returning a String with the same characters).  Borrowing vs owning is not observable in the value."""
